@@ -13,7 +13,8 @@ import (
 
 // FullConf describes a real Server with mixed listeners.
 type FullConf struct {
-	Listeners   []string `json:"listeners"` // tcp, tcptls, ws, wss, inproc
+	Listeners   []string `json:"listeners"`       // tcp, tcptls, ws, wss, inproc
+	Trace       bool     `json:"trace,omitempty"` // TCP listeners and TCP clients are configured with a TraceWriter
 	Enc         []string `json:"enc"`
 	Comp        []string `json:"comp"`
 	Buf         int      `json:"buf"`
@@ -82,10 +83,10 @@ func StartFull(w *World, conf FullConf, basePort int, setup func(b *lime.ServerB
 	for i, k := range conf.Listeners {
 		switch k {
 		case "tcp":
-			b.ListenTCP(tcpAddr(basePort+i), &lime.TCPConfig{})
+			b.ListenTCP(tcpAddr(basePort+i), traced(conf.Trace, &lime.TCPConfig{}))
 			f.InProc = append(f.InProc, "")
 		case "tcptls":
-			b.ListenTCP(tcpAddr(basePort+i), &lime.TCPConfig{TLSConfig: srvTLS})
+			b.ListenTCP(tcpAddr(basePort+i), traced(conf.Trace, &lime.TCPConfig{TLSConfig: srvTLS}))
 			f.InProc = append(f.InProc, "")
 		case "ws":
 			b.ListenWebsocket(tcpAddr(basePort+i), &lime.WebsocketConfig{})
@@ -188,7 +189,7 @@ func (f *Full) Dial(ctx context.Context, li int, ipBuf int) (lime.Transport, err
 	_, cliTLS := TLSConfigs()
 	switch f.Conf.Listeners[li] {
 	case "tcp", "tcptls":
-		return lime.DialTcp(ctx, tcpAddr(f.BasePort+li), &lime.TCPConfig{TLSConfig: cliTLS, ReadLimit: f.CliReadLimit})
+		return lime.DialTcp(ctx, tcpAddr(f.BasePort+li), traced(f.Conf.Trace, &lime.TCPConfig{TLSConfig: cliTLS, ReadLimit: f.CliReadLimit}))
 	case "ws":
 		return lime.DialWebsocket(ctx, fmt.Sprintf("ws://127.0.0.1:%d", f.BasePort+li), nil, nil)
 	case "wss":
@@ -314,6 +315,7 @@ func GenFullConf(t *simrt.Tape, nListeners int) FullConf {
 	c.Comp = []string{"none"}
 	c.Buf = []int{0, 1, 2, 8}[t.Draw(4)]
 	c.RegMode = t.Draw(2)
+	c.Trace = t.Draw(5) == 0
 	return c
 }
 
@@ -329,4 +331,12 @@ func FixSelector(k string, c *CliSpec) {
 	if k == "tcp" {
 		c.Enc = "none"
 	}
+}
+
+// traced adds a discarding TraceWriter to a TCP configuration.
+func traced(on bool, c *lime.TCPConfig) *lime.TCPConfig {
+	if on {
+		c.TraceWriter = newDiscardTrace()
+	}
+	return c
 }
